@@ -6,7 +6,7 @@
    Values of every integer type are modelled by the mathematical integer they denote (Z).
    Executable definitions only; proofs live in Proofs/C19P.v. *)
 From Coq Require Import List ZArith NArith QArith Bool.
-From EasyML Require Import Base.Sx Model.Num.
+From EasyML Require Import Base.Sx Model.Num Model.Tape.
 Import ListNotations.
 Open Scope Z_scope.
 
@@ -114,6 +114,104 @@ Definition record_zero : record := record_constant (nzero ops).
 Definition record_one : record := record_constant (none_ ops).
 Definition record_from_usize (n : N) : option record :=
   match nof_N ops n with Some c => Some (record_constant c) | None => None end.
+(* ---- operators of Trace: src/differentiation/trace_operations.rs ----
+   op: 0 + ; 1 - ; 2 * ; 3 /.  One function per impl: the `&Trace op &Trace` impl carries the
+   arithmetic, the three other operand forms are the macros operator_impl_value_value!
+   `(&self).op(&rhs)`, operator_impl_value_reference! `(&self).op(rhs)` and
+   operator_impl_reference_value! `self.op(&rhs)`. *)
+Definition trace_rr (op : Z) (a b : trace) : trace :=
+  let an := tr_number a in let ad := tr_derivative a in
+  let bn := tr_number b in let bd := tr_derivative b in
+  match op with
+  | 0 => mkTrace (nadd ops an bn) (nadd ops ad bd)
+  | 1 => mkTrace (nsub ops an bn) (nsub ops ad bd)
+  (* u'v + uv' *)
+  | 2 => mkTrace (nmul ops an bn) (nadd ops (nmul ops ad bn) (nmul ops an bd))
+  (* (u'v - uv') / v^2 *)
+  | _ => mkTrace (ndiv ops an bn)
+                 (ndiv ops (nsub ops (nmul ops ad bn) (nmul ops an bd)) (nmul ops bn bn))
+  end.
+Definition trace_vv (op : Z) (a b : trace) : trace := trace_rr op a b.
+Definition trace_vr (op : Z) (a b : trace) : trace := trace_rr op a b.
+Definition trace_rv (op : Z) (a b : trace) : trace := trace_rr op a b.
+(* impl Neg for &Trace: Trace::zero() - self   (Trace - &Trace) *)
+Definition trace_neg_r (a : trace) : trace := trace_vr 1 trace_zero a.
+(* impl Neg for Trace: Trace::zero() - self    (Trace - Trace) *)
+Definition trace_neg_v (a : trace) : trace := trace_vv 1 trace_zero a.
+
+(* ---- operators of Record: src/differentiation/record_operations.rs ----
+   The tape (Model/Tape.v) of the records that have one is threaded through as state; a
+   record's `history` is the identity of its tape. *)
+(* functions.rs: Addition / Subtraction / Multiplication / Division *)
+Definition fn_of (op : Z) (x y : R) : R :=
+  match op with 0 => nadd ops x y | 1 => nsub ops x y | 2 => nmul ops x y | _ => ndiv ops x y end.
+Definition dx_of (op : Z) (x y : R) : R :=
+  match op with 0 => none_ ops | 1 => none_ ops | 2 => y | _ => ndiv ops (none_ ops) y end.
+Definition dy_of (op : Z) (x y : R) : R :=
+  match op with
+  | 0 => none_ ops | 1 => nneg ops (none_ ops) | 2 => x
+  | _ => ndiv ops (nneg ops x) (nmul ops y y)
+  end.
+
+(* same_list: both tapes present => the same tape *)
+Definition same_list (a b : record) : bool :=
+  match rc_history a, rc_history b with
+  | Some x, Some y => Nat.eqb x y
+  | _, _ => true
+  end.
+
+(* impl Op<&T> for &Record *)
+Definition record_num (op : Z) (t : tape R) (a : record) (c : R) : record * tape R :=
+  match rc_history a with
+  | None => (mkRecord (fn_of op (rc_number a) c) None 0%nat, t)
+  | Some h =>
+      let '(t', i) := append_unary ops t (rc_index a) (dx_of op (rc_number a) c) in
+      (mkRecord (fn_of op (rc_number a) c) (Some h) i, t')
+  end.
+(* SwappedOperations::sub_swapped / div_swapped: the constant is the left operand *)
+Definition num_record (op : Z) (t : tape R) (c : R) (b : record) : record * tape R :=
+  match rc_history b with
+  | None => (mkRecord (fn_of op c (rc_number b)) None 0%nat, t)
+  | Some h =>
+      let '(t', i) := append_unary ops t (rc_index b) (dy_of op c (rc_number b)) in
+      (mkRecord (fn_of op c (rc_number b)) (Some h) i, t')
+  end.
+(* impl Op<&Record> for &Record: the assertion, then the four-way match; its (None, Some) arm
+   is `rhs + &self.number` / `rhs * &self.number` for + and *, rhs.sub_swapped(self.number) /
+   rhs.div_swapped(self.number) for - and / *)
+Definition record_rr (op : Z) (t : tape R) (a b : record) : outcome (record * tape R) :=
+  if same_list a b then
+    Ok match rc_history a, rc_history b with
+       | None, None => (mkRecord (fn_of op (rc_number a) (rc_number b)) None 0%nat, t)
+       | Some _, None => record_num op t a (rc_number b)
+       | None, Some _ =>
+           if (op =? 0) || (op =? 2) then record_num op t b (rc_number a)
+           else num_record op t (rc_number a) b
+       | Some h, Some _ =>
+           let '(t', i) := append_binary t (rc_index a) (dx_of op (rc_number a) (rc_number b))
+                                           (rc_index b) (dy_of op (rc_number a) (rc_number b)) in
+           (mkRecord (fn_of op (rc_number a) (rc_number b)) (Some h) i, t')
+       end
+  else Panic.
+(* record_operator_impl_value_value! / _value_reference! / _reference_value! *)
+Definition record_vv (op : Z) (t : tape R) (a b : record) := record_rr op t a b.
+Definition record_vr (op : Z) (t : tape R) (a b : record) := record_rr op t a b.
+Definition record_rv (op : Z) (t : tape R) (a b : record) := record_rr op t a b.
+(* impl Neg for &Record: -number without a tape, Record::constant(zero) - self with one *)
+Definition record_neg_r (t : tape R) (a : record) : outcome (record * tape R) :=
+  match rc_history a with
+  | None => Ok (mkRecord (nneg ops (rc_number a)) None 0%nat, t)
+  | Some _ => record_vr 1 t (record_constant (nzero ops)) a
+  end.
+(* impl Neg for Record *)
+Definition record_neg_v (t : tape R) (a : record) : outcome (record * tape R) :=
+  match rc_history a with
+  | None => Ok (mkRecord (nneg ops (rc_number a)) None 0%nat, t)
+  | Some _ => record_vv 1 t (record_constant (nzero ops)) a
+  end.
+(* WengertList::variable *)
+Definition record_variable (tape_id : nat) (t : tape R) (x : R) : record * tape R :=
+  let '(t', i) := append_nullary ops t in (mkRecord x (Some tape_id) i, t').
 End Wrappers.
 Arguments trace R : clear implicits.
 Arguments record R : clear implicits.
